@@ -256,6 +256,14 @@ class Evaluator(object):
             return args[0]
         if name == "abs" and _num(args[0]):
             return abs(args[0])
+        if name in ("round", "np.round", "numpy.round") and args and all(_num(a) for a in args) and not n.keywords:
+            return round(*args)
+        if name in ("math.floor", "np.floor", "numpy.floor", "math.ceil", "np.ceil", "numpy.ceil", "math.trunc") and len(args) == 1 and _num(args[0]):
+            return {"floor": math.floor, "ceil": math.ceil, "trunc": math.trunc}[name.split(".")[-1]](args[0])
+        if name in ("min", "max") and args and all(_num(a) for a in args) and not n.keywords:
+            return (min if name == "min" else max)(args)
+        if name == "divmod" and len(args) == 2 and all(_num(a) for a in args):
+            return divmod(*args)
         raise Unknown("call %s not modelled" % unparse(n))
 
     # -------------------------------------------------------------- statements
